@@ -33,6 +33,10 @@ func FullLeaves() []*Node {
 func ExtraLeaves() []*Node {
 	sq := Value{Kind: VPhrase, S: "'x y'", Text: "'x y'"} // a single-quoted phrase keeps its quotes
 	return []*Node{
+		// field names that begin with a digit (a sign in front of them is a prefix operator), and
+		// words that begin with a minus and a digit but are no numbers
+		F("1a", Word("b")), Range("2b", Int(1), Int(5), true), List("3c", Int(1), Int(2)), Cmp("4d", ">", Int(5)), F("5e", Wild("w*")),
+		T(Word("-\u0663")), F("a", Word("-\uff15")), Range("a", Word("-\u0663"), Int(5), true), T(Word("-3d")), F("a", Word("-5th")), T(Word("-2024-01-01")),
 		{Kind: KField, Field: Word("f"), Val: Word("b"), EqSign: true},
 		{Kind: KField, Field: Word("f"), Val: Int(-7), EqSign: true},
 		FV(Phrase("a field"), Word("v")), FV(Escaped("a field"), Int(3)), FV(Wild("w*"), Word("v")),
